@@ -158,6 +158,8 @@ type Engine struct {
 	Unmodelled map[string]int
 	loops      map[*ssa.Function]map[*ssa.BasicBlock]*loopInfo
 	Errors     []string
+	boundInl   map[*ssa.Function]bool // methods whose method value was created by simulated code: inlined like closures
+	NotInlined map[*ssa.Function]bool // module callees that were summarised instead of inlined at some site
 	// ParamNonNil: assume pointer parameters / receivers of the root non-nil
 	steps int
 }
@@ -170,7 +172,7 @@ type Result struct {
 }
 
 func NewEngine(p *Prog) *Engine {
-	return &Engine{P: p, MaxPaths: 20000, Unmodelled: map[string]int{}, loops: map[*ssa.Function]map[*ssa.BasicBlock]*loopInfo{}}
+	return &Engine{P: p, MaxPaths: 20000, Unmodelled: map[string]int{}, loops: map[*ssa.Function]map[*ssa.BasicBlock]*loopInfo{}, boundInl: map[*ssa.Function]bool{}, NotInlined: map[*ssa.Function]bool{}}
 }
 
 func (st *State) clone() *State {
@@ -522,6 +524,9 @@ func (en *Engine) runUntilBranch(st *State) ([]*State, *Terminal, error) {
 				b[i] = en.eval(st, fr, bv)
 			}
 			fr.env[x] = mkClosure(x.Fn.(*ssa.Function), b, fr.ctx+"/"+siteOf(x))
+			if tgt := boundTarget(en.P, x.Fn.(*ssa.Function)); tgt != nil && en.P.inModule(tgt) {
+				en.boundInl[tgt] = true
+			}
 		case *ssa.Range:
 			st.nonce++
 			fr.env[x] = mkUnknown("range", x.Type(), st.nonce)
